@@ -26,6 +26,7 @@ func checkC17(c *Ctx) {
 	c.checkRehashRebuilds()
 	c.checkVoteRepliesDistinct()
 	c.checkActiveNodesExact()
+	c.checkNeverDropped("C17.1c-rehash-signal-never-dropped", "Hub", "rehash", "the node adopts the new ring but keeps running the topics that moved away: two nodes serve one topic")
 }
 
 func (c *Ctx) checkRing() {
